@@ -53,7 +53,7 @@ MANIFEST = dict(
           "metadata layout, and of the metadata matcher. Proved: tags_roundtrip / stream_roundtrip (construct after "
           "represent is the identity on well-formed values, for every nesting), a run over a settled sync document "
           "changes nothing and creates nothing, a freshly created sync object is found again exactly when no `set` key "
-          "overrides a `find` key; pep440 recogniser soundness. Tie: differential runs (documents applied twice; node "
+          "overrides a `find` key; the version matcher accepts exactly the PEP 440 shape of its regular expression. Tie: differential runs (documents applied twice; node "
           "graphs; exhaustive version strings). The excluded point (set overriding find) is replayed and recorded."),
     design_ref="§6 C13",
     note=("Trusted: Lean kernel; PyYAML text layer; AwesomeVersion; metamodel slice and rendering in decl_lib.py. "
